@@ -28,6 +28,13 @@ class CropContract(ReadContract):
         rd.fields['headerbytes'] = BM.file_bytes(BM.K_FILE, 0, 2 * BLK)
         rd.fields['stored_header_keys'] = []
         rd.fields['file_version_newer_than_021'] = None
+        # sample axis in whole milliseconds (first sample and interval integers): the header word that carries the start is an integer
+        zi0 = c.sym_int('zi0', lo=-32768, hi=32767, name='first_sample_ms'); zid = c.sym_int('zid', lo=1, hi=65, name='sample_interval_ms')
+        from pyvc.values import mk_float
+        zs = SArray((g.nZ,), lambda idx: mk_float(z3.ToReal(zint(add(zi0, mul(idx[0], zid))))), 'float64')
+        zs.prog = (zi0, zid)
+        zs.int_fn = lambda k: add(zi0, mul(k, zid))
+        rd.fields['zslices'] = zs
         d = dict(self=rd, _g=g)
         names = ('iline_index_range', 'xline_index_range', 'zslices_index_range')
         for k, nm in enumerate(names):
@@ -199,6 +206,9 @@ class CropWrite(CropContract):
         for off, axis, k in ((24, 'ilines', 0), (20, 'xlines', 1)):
             w = hdr.field(off, off + 4)
             c.ensure(mk_bool(isinstance(w, BM.Packed) and w.fmt == '<i') and eq(w.value, F(rd, axis).fn((box[k][0],))), f'header_word{off}.first_{axis[:-1]}_of_the_box')
+        # C05: the sample axis of the cropped file starts at the time of the first kept sample (whole milliseconds: the word is an integer)
+        w16 = hdr.field(16, 20)
+        c.ensure(mk_bool(isinstance(w16, BM.Packed)) and eq(w16.value, F(rd, 'zslices').int_fn(box[2][0])), 'header_word16.first_sample_time_of_the_box')
         # C03 relation between the words themselves (same terms the code used), then each word against the box
         P_w = []
         for off, k in ((12, 0), (8, 1), (4, 2)):
@@ -253,5 +263,5 @@ register(CropWriteFooter, 'cropping.py::SgzCropper.write_cropped_file_by_indexes
 
 for _pat in [(False, False, False), (True, False, False), (False, False, True)]:
     _cls = type('CropWrite_' + ''.join('N' if x else 'r' for x in _pat), (CropWrite,), dict(none=_pat))
-    register(_cls, 'cropping.py::SgzCropper.write_cropped_file_by_indexes', ['C10', 'C03'], CFG_DEFAULT + [CFG_ZSLICE[0], CFG_GENERAL[5]], modes=('file',),
+    register(_cls, 'cropping.py::SgzCropper.write_cropped_file_by_indexes', ['C10', 'C03', 'C05'], CFG_DEFAULT + [CFG_ZSLICE[0], CFG_GENERAL[5]], modes=('file',),
              tag='none:' + ''.join('1' if x else '0' for x in _pat))
